@@ -195,6 +195,15 @@ def cli_cases(draw):
         if s[-1] not in gen.ACGT:
             s = s[:-1] + "c"
         r[2] = s
+    if draw(st.integers(0, 2)) == 0:
+        # exact multiples of the line width, file without a final newline
+        f["final_newline"] = False
+        for r in f["records"]:
+            w = r[3]
+            if len(r[2]) > w:
+                r[2] = r[2][: (len(r[2]) // w) * w]
+                if r[2][-1] not in gen.ACGT:
+                    r[2] = r[2][:-1] + "g"
     t = draw(gen.texel(small=True))
     inp = fasta_input_plain(f)
     m = draw(gen.model_map(inp, t))
